@@ -211,6 +211,12 @@ class ConstEval:
             return binascii.unhexlify(ev(e.args[0]))
         if full in ("struct.calcsize",) or (full or "").endswith("struct.calcsize"):
             return struct.calcsize(ev(e.args[0]))
+        if name in ("calculate_crc32", "crc32") and e.args and len(e.args) <= 2 and not e.keywords:
+            import zlib
+            vals = [ev(a) for a in e.args]
+            if isinstance(vals[0], (bytes, bytearray)) and all(isinstance(v, int) for v in vals[1:]):
+                return zlib.crc32(bytes(vals[0]), *vals[1:]) & 0xFFFFFFFF
+            raise NotConst("crc32 of non-bytes")
         if full in ("struct.pack", "pack") or (full or "").endswith("struct.pack"):
             return struct.pack(*[ev(a) for a in e.args])
         if isinstance(f, ast.Name) and f.id in ("bytes", "int", "len", "tuple", "list", "min", "max", "sum", "bool", "str", "set", "frozenset") and not e.keywords:
